@@ -60,18 +60,44 @@ Proof. exact walk_ok_closed. Qed.
 Print Assumptions C03_walk_any_batching_closed.
 
 Theorem C03_walk_any_batching_payload :
-  forall U c T r M, wf_univ U = true ->
+  forall U c T r M,
   walk_ok U (revs T) r M -> full U T -> full U (insert U c T M).
 Proof. exact walk_ok_keeps_full. Qed.
 Print Assumptions C03_walk_any_batching_payload.
 
-(* completeness: after a successful fetch the target sees r and every ancestor of r the source
-   has -- in both search modes, no hypothesis on the target (formerly guarded by closedb for
-   find_ghosts=False; the guard fell with the repair) -- and a closed target is closed again *)
+(* The third search: find_ghosts=False from a source behind the smart server.  The server replays
+   the search recipe (start at r, never pass a revision the target has), so it sends exactly an
+   admissible walk too -- but one that does not look below the revisions the target already has. *)
+Theorem C03_search_replay_admissible :
+  forall U vis r, wf_dag (ug U) = true -> walk_ok U vis r (missing_replay U vis r).
+Proof. exact walk_ok_replay. Qed.
+Print Assumptions C03_search_replay_admissible.
+
+(* every search of the model is an admissible walk; and it requests EVERY missing ancestor when
+   [fills_all]: find_ghosts, or a local source (search exhausted in one batch), or a target without
+   fillable ghosts *)
+Theorem C03_search_admissible :
+  forall U c fg vis r, wf_dag (ug U) = true -> walk_ok U vis r (missing U c fg vis r).
+Proof. exact missing_ok. Qed.
+Print Assumptions C03_search_admissible.
+
+Theorem C03_search_fills_all :
+  forall U c fg vis r a, wf_dag (ug U) = true -> fills_all U c fg vis -> srcp U r = true ->
+  (In a (missing U c fg vis r) <-> In a (missing_full U vis r)).
+Proof. exact missing_is_full. Qed.
+Print Assumptions C03_search_fills_all.
+
+(* completeness.  After a successful fetch: (1) always, every revision reached from r without
+   passing through a revision the target saw before is visible; (2) when the search fills
+   everything, r and every ancestor of r the source has are visible -- in particular for
+   find_ghosts=False from a local source into a target with a fillable ghost, the case of the former
+   finding; (3) a closed target is closed again. *)
 Theorem C03_fetch_complete :
   forall U c F T fg r n T', wf_dag (ug U) = true ->
   fetch U c F T fg r = (FOk, n, T') ->
-  (forall a, reach (ug U) a r -> srcp U a = true -> In a (vis_of F T')) /\
+  (forall a, ravoid U (vis_of F T) r a -> In a (vis_of F T')) /\
+  (fills_all U c fg (vis_of F T) ->
+     forall a, reach (ug U) a r -> srcp U a = true -> In a (vis_of F T')) /\
   (closedb U (vis_of F T) = true -> closedb U (vis_of F T') = true).
 Proof. exact fetch_complete. Qed.
 Print Assumptions C03_fetch_complete.
@@ -89,17 +115,18 @@ Print Assumptions C03_fetch_preserves_existing.
 Theorem C03_fetch_idempotent :
   forall U c F T fg r n T', wf_dag (ug U) = true ->
   fetch U c F T fg r = (FOk, n, T') ->
-  missing U fg (vis_of F T') r = [] /\ fetch U c F T' fg r = (FOk, 0, T').
+  missing U c fg (vis_of F T') r = [] /\ fetch U c F T' fg r = (FOk, 0, T').
 Proof. exact fetch_idempotent. Qed.
 Print Assumptions C03_fetch_idempotent.
 
 (* the payload arrives whole: into an unstacked target in which every revision has its
    inventory and all the texts it references, every copied revision arrives with its inventory
    and all the texts the source's inventory references -- for the CHK / inventory-difference
-   text selection (same format) and the by-revision selection (format conversion), both search
-   modes, no hypothesis on the target's ghosts *)
+   text selection of the same-format and of the converting stream sources alike, both search
+   modes, no hypothesis on the target's ghosts, and also when an inventory names texts after a
+   revision the source itself lacks (a sparse source: only the graph has to be well formed) *)
 Theorem C03_payload_equal :
-  forall U c F T fg r out n T', wf_univ U = true ->
+  forall U c F T fg r out n T', wf_dag (ug U) = true ->
   fetch U c F T fg r = (out, n, T') -> revs F = [] ->
   full U T -> full U T'.
 Proof. exact fetch_keeps_full. Qed.
@@ -117,7 +144,7 @@ Proof. exact fetch_all_complete. Qed.
 Print Assumptions C03_fetch_all_complete.
 
 Theorem C03_fetch_all_payload :
-  forall U c F T out n T', wf_univ U = true ->
+  forall U c F T out n T',
   fetch_all U c F T = (out, n, T') -> revs F = [] -> full U T -> full U T'.
 Proof. exact fetch_all_keeps_full. Qed.
 Print Assumptions C03_fetch_all_payload.
